@@ -246,7 +246,7 @@ def check(ctx):
 
     # ---------------- R8
     ctx.rule("C01.R8", "object nodes: child applied / MISSING / UNEXPECTED / TypedDict copy happen under exactly the documented conditions (truth tables of the reach conditions)", floor=7)
-    object_protocol_rule(ctx, "C01.R8", ["applied", "missing", "unexpected", "copy"])
+    object_protocol_rule(ctx, "C01.R8", ["applied", "missing", "unexpected", "copy", "attribution"])
 
 
 def mutants(mb):
@@ -292,6 +292,9 @@ def mutants(mb):
     mb.add_text("typed-copy-polarity", M, "            elif self.typed_dict:\n                for key in data.keys() - self.all_aliases:", "            elif not self.typed_dict:\n                for key in data.keys() - self.all_aliases:", "C01.R8", "ObjectMethod:copy")
     mb.add_text("remain-all-keys", M, "                for key in data.keys() - self.all_aliases:\n                    if key != discriminator:", "                for key in data.keys():\n                    if key != discriminator:", "C01.R8", "ObjectMethod:unexpected:keys")
     mb.add_text("applied-when-absent", M, "            if field.alias in data:\n                fields_count += 1\n                try:\n                    values[field.name]", "            if field.alias not in data:\n                fields_count += 1\n                try:\n                    values[field.name]", "C01.R8", "ObjectMethod:")
+    mb.add_text("flattened-from-remain", M, "                    for alias in flattened_field.aliases\n                    if alias in data\n", "                    for alias in flattened_field.aliases\n                    if alias in remain\n", "C01.R8", "attribution:flattened")
+    mb.add_text("pattern-keys-not-consumed", M, "                remain.difference_update(matched)\n", "", "C01.R8", "attribution:pattern:consumed")
+    mb.add_text("pattern-from-data", M, "                    for key in remain\n                    if isinstance(key, str) and pattern_field.pattern.match(key)", "                    for key in data\n                    if isinstance(key, str) and pattern_field.pattern.match(key)", "C01.R8", "attribution:pattern")
     mb.add_text("neg-guard-clause-form", M, "                    for key in remain:\n                        if key != discriminator:\n                            field_errors = set_child_error(\n                                field_errors, key, ValidationError(self.unexpected)\n                            )", "                    for key in remain:\n                        if key == discriminator:\n                            continue\n                        field_errors = set_child_error(\n                            field_errors, key, ValidationError(self.unexpected)\n                        )", negative=True)
     mb.add_text("neg-else-branch-form", M, "        elif len(data) != fields_count:\n            if not self.additional_properties:", "        elif not (len(data) == fields_count):\n            if not self.additional_properties:", negative=True)
     mb.add_text("neg-operand-order", M, "        return data >= self.minimum", "        return self.minimum <= data", negative=True)
